@@ -436,13 +436,56 @@ def isolation_bounded(rep):
     rep.bounded.append(dict(kind='undecoratable definition among siblings under the real import hook (bounded stand-in, NOT counted as proved)', modules=4, failing=int(p.returncode == 1),
                             bound='4 module shapes (bad method first / in the middle, bad method of a nested class, bad module-level function) x 3-4 sibling methods'))
 
+AFTER_SRC = """
+import sys, os, tempfile, warnings, importlib
+from beartype.claw import beartyping, beartype_package
+from beartype.roar import BeartypeCallHintViolation, BeartypeDoorHintViolation
+from beartype.claw._clawstate import claw_state
+SRC = 'def outer(v):\\n    local: int = v\\n    def inner(w: int) -> int:\\n        return w\\n    class K:\\n        def m(self, z: int) -> int: return z\\n    return inner, K, local\\n'
+d = tempfile.mkdtemp(prefix='c05after'); pkg = os.path.join(d, 'c05afterpkg'); os.mkdir(pkg); open(os.path.join(pkg, '__init__.py'), 'w').close()
+for n in ('inblock', 'registered'): open(os.path.join(pkg, n + '.py'), 'w').write(SRC.replace('\\n', chr(10)))
+sys.path.insert(0, d); sys.dont_write_bytecode = True
+bad = []
+def probe(label, m):
+    # the module must behave like the by-hand module whenever its functions run - also long after it was imported
+    try: inner, K, _ = m.outer(1)
+    except Exception as e: bad.append((label, 'outer(1) raised ' + type(e).__name__)); return
+    for what, thunk in (('inner("x")', lambda: inner('x')), ('K().m("x")', lambda: K().m('x')), ('outer("x")', lambda: m.outer('x'))):
+        try: thunk(); bad.append((label, what + ' accepted'))
+        except (BeartypeCallHintViolation, BeartypeDoorHintViolation): pass
+        except Exception as e: bad.append((label, what + ' raised ' + type(e).__name__))
+with beartyping():
+    import c05afterpkg.inblock as m1
+    probe('inside the block', m1)
+probe('after the block (hook removed)', m1)
+beartype_package('c05afterpkg')
+import c05afterpkg.registered as m2
+probe('registered package', m2)
+with beartyping(): pass
+probe('registered package after an unrelated beartyping() block', m2)
+import shutil; shutil.rmtree(d, ignore_errors=True); claw_state.reinit()
+print(bad); sys.exit(1 if bad else 0)
+"""
+def after_import_bounded(rep):
+    """bounded (real import hook, NOT counted as proved): checks injected INSIDE function bodies (local annotated assignments, nested typed
+    definitions) keep working whenever the function runs - inside a beartyping() block, after it, and after other hook API calls"""
+    import subprocess, sys
+    from pyvc import REPO
+    env = dict(os.environ); env['PYTHONPATH'] = REPO; env['PYTHONDONTWRITEBYTECODE'] = '1'
+    p = subprocess.run([sys.executable, '-c', AFTER_SRC], capture_output=True, text=True, timeout=180, env=env, cwd='/')
+    if p.returncode not in (0, 1) or (p.returncode == 1 and not p.stdout.strip().startswith('[')): rep.error('C05 after_import_bounded harness: ' + (p.stdout + p.stderr)[-600:]); return
+    if p.returncode == 1:
+        rep.add('C05.after_import.bounded.injected_checks_keep_working', 'refuted', backend='runtime-contract', where=p.stdout.strip()[-400:], solver_output='bounded run-time contract through the real import hook (not a proof)',
+                replay=dict(reproduced=True, detail=p.stdout.strip()[-400:]), replay_script=f"import subprocess\nenv = dict(os.environ); env['PYTHONPATH'] = {REPO!r}; env['PYTHONDONTWRITEBYTECODE'] = '1'\np = subprocess.run([sys.executable, '-c', {AFTER_SRC!r}], env=env, cwd='/')\nsys.exit(p.returncode)\n")
+    rep.bounded.append(dict(kind='function-local injected checks after the import (bounded stand-in, NOT counted as proved)', probes=16, failing=int(p.returncode == 1)))
+
 def main(tier, seed):
     rep = report.Report('C05', tier, seed, 'other', f'./check C05 --tier {tier}')
     try: funcmode_part(rep)
     except Exception: rep.error('C05 funcmode: ' + traceback.format_exc()[-2500:])
     try: bounded(rep, tier, seed)
     except Exception: rep.error('C05 bounded: ' + traceback.format_exc()[-2500:])
-    for fn in (import_tracking, isolation, isolation_bounded):
+    for fn in (import_tracking, isolation, isolation_bounded, after_import_bounded):
         try: fn(rep)
         except Exception: rep.error(f'C05 {fn.__name__}: ' + traceback.format_exc()[-2500:])
     files = ['beartype/claw/_ast/clawastmain.py', 'beartype/claw/_ast/_kind/clawastassign.py', 'beartype/claw/_ast/_kind/clawastmodule.py', 'beartype/claw/_ast/_kind/clawastimport.py']
